@@ -1232,3 +1232,67 @@ Section OutputSchedule.
       destruct (at_freq c (oc_restart_freq c) last); reflexivity.
   Qed.
 End OutputSchedule.
+
+(* =================================================================================================
+   F. label text
+   ================================================================================================= *)
+Definition no_blank (s : list nat) : Prop := Forall (fun c => c <> 32%nat) s.
+
+Lemma strip_trailing_spaces : forall n, strip_trailing (repeat 32%nat n) = [].
+Proof. induction n as [|n IH]; [reflexivity|]. cbn [repeat strip_trailing]. rewrite IH. reflexivity. Qed.
+
+Lemma strip_trailing_app_spaces : forall s n, no_blank s -> strip_trailing (s ++ repeat 32%nat n) = s.
+Proof.
+  induction s as [|c s IH]; intros n Hs; cbn [app].
+  - apply strip_trailing_spaces.
+  - inversion Hs as [|? ? Hc Hs']; subst. cbn [strip_trailing]. rewrite (IH n Hs').
+    destruct s as [|d s]; [|reflexivity]. destruct (c =? 32)%nat eqn:E; [apply Nat.eqb_eq in E; contradiction|reflexivity].
+Qed.
+
+(* a name that fits is printed in full: the token is prefix ++ name *)
+Lemma label_token_short : forall prefix name width,
+  no_blank prefix -> no_blank name -> (length prefix + length name <= width)%nat ->
+  label_token prefix name width = prefix ++ name.
+Proof.
+  intros prefix name width Hp Hn Hl. unfold label_token, label_text, wrap_string.
+  replace (length name <=? width - length prefix)%nat with true by (symmetry; apply Nat.leb_le; lia).
+  rewrite app_assoc. apply strip_trailing_app_spaces. apply Forall_app. split; assumption.
+Qed.
+
+(* hence, for one prefix, names that fit are told apart by their labels *)
+Lemma label_token_injective_short : forall prefix n1 n2 width,
+  no_blank prefix -> no_blank n1 -> no_blank n2 ->
+  (length prefix + length n1 <= width)%nat -> (length prefix + length n2 <= width)%nat ->
+  label_token prefix n1 width = label_token prefix n2 width -> n1 = n2.
+Proof.
+  intros prefix n1 n2 width Hp H1 H2 L1 L2 Heq. rewrite !label_token_short in Heq by assumption.
+  apply app_inv_head in Heq. exact Heq.
+Qed.
+
+(* a longer name is cut: the token is prefix ++ the first (width - length prefix) characters *)
+Lemma label_token_long : forall prefix name width,
+  no_blank prefix -> no_blank name -> (width < length prefix + length name)%nat -> (length prefix <= width)%nat ->
+  label_token prefix name width = prefix ++ firstn (width - length prefix) name.
+Proof.
+  intros prefix name width Hp Hn Hl Hw. unfold label_token, label_text, wrap_string.
+  replace (length name <=? width - length prefix)%nat with false by (symmetry; apply Nat.leb_gt; lia).
+  rewrite <- (app_nil_r (prefix ++ firstn (width - length prefix) name)) at 1.
+  change [] with (repeat 32%nat 0). apply strip_trailing_app_spaces. apply Forall_app. split; [exact Hp|].
+  apply Forall_forall. intros c Hc. unfold no_blank in Hn. rewrite Forall_forall in Hn. apply Hn.
+  rewrite <- (firstn_skipn (width - length prefix) name). apply in_or_app. left. exact Hc.
+Qed.
+
+(* two different names with the same first 21 characters get the same label; and the velocity column of "a" has the
+   label of the value column of a variable named "v_a" (characters as codes: a=97, v=118, _=95) *)
+Lemma label_collisions :
+  (exists n1 n2, n1 <> n2 /\ no_blank n1 /\ no_blank n2 /\ label_token [] n1 21 = label_token [] n2 21) /\
+  label_token [118; 95]%nat [97]%nat 21 = label_token [] [118; 95; 97]%nat 21.
+Proof.
+  split.
+  - exists (repeat 97 21 ++ [49])%nat, (repeat 97 21 ++ [50])%nat.
+    split; [intros H; vm_compute in H; discriminate|].
+    split; [unfold no_blank; cbn [repeat app]; repeat (constructor; try discriminate)|].
+    split; [unfold no_blank; cbn [repeat app]; repeat (constructor; try discriminate)|].
+    vm_compute. reflexivity.
+  - vm_compute. reflexivity.
+Qed.
